@@ -17,7 +17,9 @@ import (
 	"com.tuntun.rangers/node/src/common"
 	"com.tuntun.rangers/node/src/eth_tx"
 	"com.tuntun.rangers/node/src/executor"
+	"com.tuntun.rangers/node/src/middleware/db"
 	"com.tuntun.rangers/node/src/middleware/types"
+	"com.tuntun.rangers/node/src/storage/account"
 	"com.tuntun.rangers/node/src/utility"
 	"verif/harness/hx"
 )
@@ -206,6 +208,8 @@ var two510 = new(big.Int).Lsh(big.NewInt(1), 510) // C18_roundtrip is proved bel
 func main() {
 	a := hx.ParseArgs()
 	rng := hx.NewRng(a.Seed)
+	common.Init(0, "c18.ini", "dev") // fork gates read a process-global height and the chain config (dev: all proposals active)
+	common.SetBlockHeight(1)
 	res := hx.NewResult("inputs: (1) boundary integers (0, +-1, 10^18+-1, 2^255, 2^256-1, 10^77.., 2^509-1, 2^512..) and the two wrong-constant witnesses, " +
 		"(2) random integers of 1..168 digits, around powers of two and ten, both signs, through BigIntToStr/bigIntToStr(p)/FormatDecimalForERC20/Rocket with decimals -1..30, " +
 		"(1b) every string of length <= 2 (thorough: 3) over 019.-+eEpPIinf_x and blank, (3) decimal strings sign? digits{0..80} [. digits{0..40}] [e|E|p|P sign? digits], (4) mutated/malformed strings, (5) wrapped Ethereum transactions through eth_tx.ConvertTx and the contract executor's decodeContractData. " +
@@ -555,8 +559,6 @@ func main() {
 	// ---- (5) wrapped Ethereum transaction: value reaches the executor unchanged ----
 	// eth_tx.ConvertTx writes BigIntToStr(value) into the JSON data; the contract executor's
 	// decodeContractData (hook VerifDecodeContractData) parses it back with StrToBigInt.
-	common.Init(0, "c18.ini", "dev") // the executor's decoding reads fork gates (process-global height, dev config: all proposals active)
-	common.SetBlockHeight(1)
 	wrapped := func(v *big.Int) {
 		defer func() {
 			if p := recover(); p != nil {
@@ -602,6 +604,9 @@ func main() {
 		wrapped(v)
 	}
 
+	// ---- (6) the account database's ERC20-bound coins: binding record and Get/Set/Add/SubFT ----
+	ledgerCases(a, rng, res, cs)
+
 	// strings outside the property's grammar that StrToBigInt nevertheless accepts (reported as a note, not a violation)
 	{
 		r1, e1, _ := safeParse("Inf", 18)
@@ -632,3 +637,203 @@ const witnessNearest = "56811621293817351934785017273554155345847226138550693813
 const witnessPrec64 = "1180591620717411303425"
 const witnessPrec256 = "78863480712177860079531696335941234736299262810856364614764790490810452493866"
 const witnessPrec257 = "115792089237316195423570985008687907853269984665640564039457584004966757132588" // Props.v C18_min_precision
+
+// ledgerCases executes the real AccountDB (in memory) with ERC20 bindings of every decimal count 0..18 and
+// beyond, and records (a) the binding record as stored and as read back, (b) every GetFT/SetFT/AddFT/SubFT
+// (GetBalance/SetBalance/... for the system coin) with the raw contract storage slot before and after and the
+// ledger view, for the model (coq/C18/Ledger.v). A disagreement there is a broken correspondence; a violation
+// is reported only where a clause of the property itself fails: identity at 18 decimals.
+func ledgerCases(a hx.Args, rng *hx.Rng, res *hx.Result, cs *hx.Cases) {
+	defer func() {
+		if p := recover(); p != nil {
+			res.Violate("C18/panic:accountdb", fmt.Sprint(p), "ledgerCases")
+		}
+	}()
+	m, _ := db.NewMemDatabase()
+	adb, err := account.NewAccountDB(common.Hash{}, account.NewDatabase(m))
+	if err != nil {
+		panic(err)
+	}
+	slotOf := func(contract, holder common.Address, position uint64) *big.Int {
+		return new(big.Int).SetBytes(adb.GetData(contract, adb.GetERC20Key(holder, position)))
+	}
+	z := func(n *big.Int) string { return coqBig(n) }
+	mk := func(s string) *big.Int { n, _ := new(big.Int).SetString(s, 10); return n }
+	u := func(n uint64) string { return hx.CoqZ(fmt.Sprint(n)) }
+
+	type coin struct {
+		name     string
+		contract common.Address
+		position uint64
+		decimal  uint64 // what the model is told: the count the coin was bound with (18 for the system coin)
+		system   bool
+	}
+	var coins []coin
+
+	// the system coin first (its contract address is cached process-wide on first use)
+	sysContract := common.BytesToAddress(rng.Bytes(20))
+	adb.AddERC20Binding(common.BLANCE_NAME, sysContract, 7, 6)
+	{
+		found, c, p, d := adb.GetERC20Binding(common.BLANCE_NAME)
+		cs.Add(fmt.Sprintf("CBindSys %s %s %s", hx.CoqBool(common.IsSub()), u(p), u(d)), map[string]interface{}{"fn": "GetERC20Binding(SYSTEM-RPG)", "found": found, "contract": c.String(), "position": p, "decimal": d})
+		if !found || c != sysContract {
+			cs.Add("CBindSys false 0%Z 0%Z", map[string]interface{}{"fn": "GetERC20Binding(SYSTEM-RPG)", "problem": "not found / other contract", "contract": c.String()})
+		}
+		coins = append(coins, coin{common.BLANCE_NAME, sysContract, p, 18, true})
+		res.Count("binding-system", "B|sys", false)
+	}
+	decimals := []uint64{}
+	for d := uint64(0); d <= 20; d++ {
+		decimals = append(decimals, d)
+	}
+	decimals = append(decimals, 27, 28, 30, 40, 1<<63, 1<<63+18, 1<<64-1, 1<<64-18)
+	extra := 3
+	if a.Tier == "thorough" {
+		extra = 40
+	}
+	for i := 0; i < extra; i++ {
+		decimals = append(decimals, uint64(rng.Intn(19)))
+	}
+	for i, d := range decimals {
+		name := fmt.Sprintf("C18-COIN-%d", i)
+		contract := common.BytesToAddress(rng.Bytes(20))
+		position := uint64(rng.Intn(12))
+		if rng.Intn(4) == 0 {
+			position = rng.U64()
+		}
+		added := adb.AddERC20Binding(name, contract, position, d)
+		baddr := common.GenerateERC20Binding(name)
+		rawC, rawP, rawD := adb.GetData(baddr, []byte("c")), adb.GetData(baddr, []byte("p")), adb.GetData(baddr, []byte("d"))
+		found, c2, p2, d2 := adb.GetERC20Binding(name)
+		cs.Add(fmt.Sprintf("CBind %s %s %s %s %s %s %s", u(position), u(d), hx.CoqHex(rawP), hx.CoqHex(rawD), hx.CoqBool(found && added && c2 == contract && string(rawC) == string(contract.Bytes())), u(p2), u(d2)),
+			map[string]interface{}{"fn": "AddERC20Binding/GetERC20Binding", "name": name, "position": position, "decimal": d, "stored_p": fmt.Sprintf("%x", rawP), "stored_d": fmt.Sprintf("%x", rawD), "got_position": p2, "got_decimal": d2, "found": found})
+		res.Count("binding", fmt.Sprintf("B|%d|%d", position, d), d != 18)
+		if adb.AddERC20Binding(name, contract, position+1, d+1) { // a second binding of the same name must be refused
+			cs.Add("CBind 0%Z 0%Z \"\" \"\" false 0%Z 0%Z", map[string]interface{}{"fn": "AddERC20Binding", "problem": "re-binding accepted", "name": name})
+		}
+		coins = append(coins, coin{name, contract, position, d, false})
+	}
+	if found, _, _, _ := adb.GetERC20Binding("C18-NO-SUCH-COIN"); found {
+		cs.Add("CBind 0%Z 0%Z \"\" \"\" false 0%Z 0%Z", map[string]interface{}{"fn": "GetERC20Binding", "problem": "unbound name found"})
+	}
+
+	for ci, c := range coins {
+		c := c
+		holder := common.BytesToAddress(rng.Bytes(20))
+		scale := big.NewInt(1)
+		if c.decimal <= 18 {
+			scale = pow10(int(18 - c.decimal))
+		}
+		amounts := []*big.Int{
+			mk("5000000000000000123"), // 5.000000000000000123
+			new(big.Int).Sub(scale, big.NewInt(1)), new(big.Int).Set(scale),
+			new(big.Int).SetBytes(rng.Bytes(1 + rng.Intn(32))),
+			new(big.Int).Abs(randInt(rng)),
+			big.NewInt(0), big.NewInt(1),
+		}
+		if ci%5 == 0 {
+			amounts = append(amounts, new(big.Int).Sub(two256, big.NewInt(1)), big.NewInt(-3), mk("-2500000000000000000"))
+		}
+		for k, amt := range amounts {
+			if amt.BitLen() > 300 {
+				amt.Rsh(amt, uint(amt.BitLen()-300))
+			}
+			ops := []int{1, 0, 2, 3, 3} // Set amt; Get; Add amt/3+1; Sub amt/2; Sub (too much or rest)
+			args := []*big.Int{amt, nil, new(big.Int).Add(new(big.Int).Quo(amt, big.NewInt(3)), big.NewInt(1)), new(big.Int).Quo(amt, big.NewInt(2)), new(big.Int).Mul(amt, big.NewInt(3))}
+			if k >= 2 && !c.system && c.decimal != 18 && a.Tier != "thorough" {
+				ops, args = ops[:2], args[:2] // quick tier: Set + Get only for the remaining amounts
+			}
+			for j, op := range ops {
+				arg := args[j]
+				if arg == nil {
+					arg = big.NewInt(0)
+				}
+				before := slotOf(c.contract, holder, c.position)
+				var ret *big.Int
+				ok := true
+				pan := func() (p interface{}) {
+					defer func() { p = recover() }()
+					switch op {
+					case 0:
+						if c.system {
+							ret = adb.GetBalance(holder)
+						} else {
+							ret = adb.GetFT(holder, c.name)
+						}
+					case 1:
+						if c.system {
+							adb.SetBalance(holder, arg)
+						} else {
+							adb.SetFT(holder, c.name, arg)
+						}
+					case 2:
+						if c.system {
+							adb.AddBalance(holder, arg)
+						} else {
+							ok = adb.AddFT(holder, c.name, arg)
+						}
+					case 3:
+						ret, ok = adb.SubFT(holder, c.name, arg)
+					}
+					return nil
+				}()
+				after := slotOf(c.contract, holder, c.position)
+				var view *big.Int
+				if pan == nil {
+					pan = func() (p interface{}) {
+						defer func() { p = recover() }()
+						view = adb.GetFT(holder, c.name)
+						return nil
+					}()
+				}
+				o := "FPanic"
+				if pan == nil && view != nil {
+					if ret == nil {
+						ret = big.NewInt(0)
+					}
+					o = fmt.Sprintf("FOk %s %s %s %s", z(after), z(ret), hx.CoqBool(ok), z(view))
+				}
+				cs.Add(fmt.Sprintf("CFT %s %s %d%%Z %s (%s)", u(c.decimal), z(before), op, z(arg), o),
+					map[string]interface{}{"fn": []string{"GetFT", "SetFT", "AddFT", "SubFT"}[op], "coin": c.name, "decimal": c.decimal, "slot_before": before.String(), "amount": arg.String(), "slot_after": after.String(), "ret": fmt.Sprint(ret), "ok": ok, "ledger_view": fmt.Sprint(view), "panic": fmt.Sprint(pan)})
+				class := fmt.Sprintf("accountdb-%s", []string{"get", "set", "add", "sub"}[op])
+				if c.decimal == 18 {
+					class += "-18"
+					// the property's own clause: with 18 decimals nothing is re-scaled
+					inRange := arg.Sign() >= 0 && arg.Cmp(two256) < 0 && before.Cmp(two256) < 0
+					if pan != nil {
+						res.Violate("C18/panic:accountdb", fmt.Sprint(pan), map[string]interface{}{"coin": c.name, "op": op, "amount": arg.String()})
+					} else if inRange {
+						want := new(big.Int).Set(before)
+						switch op {
+						case 1:
+							want.Set(arg)
+						case 2:
+							want.Add(before, arg)
+						case 3:
+							if before.Cmp(arg) >= 0 {
+								want.Sub(before, arg)
+							}
+						}
+						if after.Cmp(want) != 0 || view == nil || view.Cmp(want) != 0 {
+							res.Violate("C18/rescale-id:accountdb", fmt.Sprintf("%s on an 18-decimal coin: slot %v -> %v, ledger view %v, want %v", []string{"GetFT", "SetFT", "AddFT", "SubFT"}[op], before, after, view, want),
+								map[string]interface{}{"coin": c.name, "amount": arg.String(), "slot_before": before.String()})
+						}
+					}
+				}
+				res.Count(class, fmt.Sprintf("L|%d|%d|%s|%s", c.decimal, op, before.String(), arg.String()), arg.Sign() != 0 || before.Sign() != 0)
+			}
+		}
+	}
+	// nil amounts are ignored
+	func() {
+		defer func() {
+			if p := recover(); p != nil {
+				res.Violate("C18/panic:accountdb-nil", fmt.Sprint(p), "nil amount")
+			}
+		}()
+		h := common.BytesToAddress(rng.Bytes(20))
+		adb.SetFT(h, coins[1].name, nil)
+		adb.AddFT(h, coins[1].name, nil)
+		adb.SubFT(h, coins[1].name, nil)
+	}()
+}
